@@ -25,6 +25,18 @@ import (
 
 var propsFile = "/verif/properties.jsonl"
 
+// extraSrc lists, per property, source files that the property's statement reaches although its anchor list does
+// not name them (callees of the anchored callbacks): "no callback panics" and "bounded cost per callback" hold of
+// everything a callback runs, determinism of everything that produces bytes.
+var extraSrc = map[string][]string{
+	"C01": {"llo/stream_value.go", "llo/channel_definitions.go", "llo/json_report_codec.go", "llo/report.go"},
+	"C11": {"llo/aggregators.go", "llo/channel_definitions.go", "llo/plugin_observation.go", "llo/outcome_codec_common.go", "llo/outcome_codec_v0.go", "llo/outcome_codec_v1.go",
+		"llo/retirement_report_codec.go", "llo/offchain_config.go", "llo/report.go", "llo/reportcodecs/evm/report_codec_common.go", "llo/reportcodecs/evm/fees.go",
+		"mercury/aggregate_functions.go", "mercury/v1/aggregate_functions.go", "mercury/v4/aggregate_functions.go", "mercury/validation.go", "mercury/v1/validation.go", "mercury/onchain_config.go"},
+	"C19": {"llo/plugin_outcome.go", "llo/plugin_reports.go", "llo/plugin_observation.go", "llo/channel_definitions.go", "llo/outcome_codec_common.go", "llo/outcome_codec_v0.go", "llo/outcome_codec_v1.go",
+		"llo/report.go", "llo/reportcodecs/evm/report_codec_premium_legacy.go", "llo/reportcodecs/evm/report_codec_evm_abi_encode_unpacked.go", "llo/reportcodecs/evm/report_codec_evm_streamlined.go"},
+}
+
 func init() {
 	register(func() {
 		f, err := os.Open(propsFile)
@@ -46,7 +58,7 @@ func init() {
 				continue
 			}
 			var all []string
-			for _, file := range p.Anchors.Files {
+			for _, file := range append(append([]string{}, p.Anchors.Files...), extraSrc[p.ID]...) {
 				if !strings.HasSuffix(file, ".go") || strings.HasSuffix(file, ".pb.go") {
 					continue
 				}
